@@ -43,6 +43,7 @@ type Options struct {
 	Overflow   bool            // math-int mode: obligations that int arithmetic stays within 64 bits
 	Bounded    string
 	Reveal     bool // opaque spec functions are expanded (used when proving the contracts that define them)
+	ModelElems bool // name the leading elements of slice parameters (counterexample replay)
 	InlineAll  bool // falsifier mode: ignore contracts of callees with bodies, inline them instead
 }
 
@@ -354,7 +355,7 @@ func (x *Exec) ExecFunc(fr *frame, st *State) (Value, *State) {
 		mode := x.Opt.Unroll
 		if fr.contract != nil {
 			if lc := fr.contract.Loops[l.ordinal]; lc != nil {
-				if len(lc.Invariants) > 0 {
+				if len(lc.Invariants) > 0 && !x.Opt.InlineAll {
 					mode = -1
 				} else if lc.Unroll > 0 {
 					mode = lc.Unroll
